@@ -102,6 +102,23 @@ func (wd *world) lowestPriorityAlive(tr *ftransport, lo, hi uint64) bool {
 	return true
 }
 
+// orphanedByRevert: name (watched at seq at) may be missing from a request on
+// tr because its watch was registered while a lower-priority server was in
+// use (so it was subscribed there only) and the client has reverted since.
+func (wd *world) orphanedByRevert(tr *ftransport, typ int, name string, at uint64) bool {
+	for _, o := range wd.transports {
+		if o.srv.idx <= tr.srv.idx || o.buildSeq >= at {
+			continue
+		}
+		for _, wt := range wd.watchers {
+			if wt.spec.Typ == typ && wt.name == name && wt.weSeq != 0 && wt.weSeq <= at && (wt.usSeq == 0 || wt.usSeq > at) && wt.weSeq > o.buildSeq {
+				return true
+			}
+		}
+	}
+	return false
+}
+
 type vn struct{ ver, nonce string }
 
 // checkRequests is the C42 oracle over the captured DiscoveryRequests.
@@ -238,6 +255,10 @@ func (wd *world) checkNames(tr *ftransport, st *fstream, q *reqRec, closing bool
 	}
 	for _, n := range resNames {
 		if !have[n] && wd.watchedThroughout(q.typ, n, lo, hi) {
+			if wd.orphanedByRevert(tr, q.typ, n, hi) {
+				e.Violate("revert_orphans_subscription", "%s stream %d: request (seq %d) for type %d lists %v but %q is watched; its watch was registered while a lower-priority server was in use and the name was never subscribed on this server", tr.name(), st.idx, q.seq, q.typ, q.names, n)
+				continue
+			}
 			e.Violate("request_names", "%s stream %d: request (seq %d) for type %d lists %v but %q was watched during the whole life of the stream (since seq %d)", tr.name(), st.idx, q.seq, q.typ, q.names, n, lo)
 		}
 	}
@@ -272,6 +293,16 @@ func (wd *world) checkConverged(tr *ftransport) {
 		}
 		if last == nil {
 			if len(want) > 0 && active {
+				orphan := true
+				for _, n := range want {
+					if !wd.orphanedByRevert(tr, t, n, q) {
+						orphan = false
+					}
+				}
+				if orphan {
+					e.Violate("revert_orphans_subscription", "%s stream %d: at quiescence %v of type %d are watched but no request for the type was sent on the live stream; they were registered while a lower-priority server was in use", tr.name(), st.idx, want, t)
+					continue
+				}
 				e.Violate("names_converge", "%s stream %d: at quiescence %v of type %d are watched but no request for the type was sent on the live stream", tr.name(), st.idx, want, t)
 			}
 			continue
@@ -280,6 +311,25 @@ func (wd *world) checkConverged(tr *ftransport) {
 		if active {
 			e.Probe("converged_checked")
 			if strings.Join(want, ",") != strings.Join(last.names, ",") {
+				have := map[string]bool{}
+				for _, n := range last.names {
+					have[n] = true
+				}
+				orphan := len(last.names) < len(want)
+				for _, n := range want {
+					if !have[n] && !wd.orphanedByRevert(tr, t, n, q) {
+						orphan = false
+					}
+				}
+				for _, n := range last.names {
+					if !wd.watchedThroughout(t, n, q, q) {
+						orphan = false
+					}
+				}
+				if orphan {
+					e.Violate("revert_orphans_subscription", "%s stream %d: at quiescence the last request for type %d (seq %d) lists %v but the watched names are %v; the missing ones were registered while a lower-priority server was in use and were never subscribed on this server", tr.name(), st.idx, t, last.seq, last.names, want)
+					continue
+				}
 				e.Violate("names_converge", "%s stream %d: at quiescence the last request for type %d (seq %d) lists %v but the watched names are %v", tr.name(), st.idx, t, last.seq, last.names, want)
 			}
 		} else {
